@@ -20,7 +20,6 @@ namespace MQ
 /-- program points inside the critical section of `mem_manager` -/
 def PC.mgrHeld : PC → Bool
   | .gt2 _ | .f3 _ | .f4 _ _ _ | .f5 _ | .f8 _ | .f9 _ _ | .f10 _ => true
-  | .f1 k _ | .f2 k | .f7 k => k.isRmTokFree
   | _ => false
 
 /-- program points inside the critical section of `wait_to_free` -/
